@@ -87,5 +87,42 @@ func g0Sentences(tier string) []sentence {
 			sentence{"ParseDML", fmt.Sprintf("INSERT INTO t (a) VALUES (1) THEN RETURN WITH ACTION t.*, %s", n)},
 		)
 	}
+	// parentheses and subqueries: every nesting, up to depth 3 (4 in the thorough tier), of "( e )", "( query )", "e + 2", "2 + e"
+	// and "( e , 3 )" (a tuple) around an atom or a scalar subquery, alone, as the value list of IN, as a select item, as a WHERE
+	// condition and as a call argument — the look-ahead that tells a parenthesised expression from a subquery sees every shape
+	pd := 3
+	if tier == "thorough" {
+		pd = 4
+	}
+	for _, e := range parenShapes(pd) {
+		out = append(out,
+			sentence{"ParseExpr", e},
+			sentence{"ParseExpr", "x IN (" + e + ")"},
+			sentence{"ParseExpr", "x NOT IN (" + e + ", 3)"},
+			sentence{"ParseExpr", "f(" + e + ", 4)"},
+			sentence{"ParseQuery", "SELECT " + e},
+			sentence{"ParseQuery", "SELECT a FROM t WHERE " + e + " > 0"},
+		)
+	}
 	return out
+}
+
+// parenShapes enumerates expression texts built from an atom and a scalar subquery by parentheses, binary operators and tuples.
+func parenShapes(depth int) []string {
+	cur := []string{"1", "(SELECT 1)", "(SELECT a FROM t LIMIT 1)"}
+	all := append([]string{}, cur...)
+	for d := 0; d < depth; d++ {
+		var next []string
+		for i, e := range cur {
+			next = append(next, "("+e+")", e+" + 2")
+			if i%2 == 0 {
+				next = append(next, "2 * "+e, "("+e+", 3)")
+			} else {
+				next = append(next, "(SELECT "+e+")")
+			}
+		}
+		all = append(all, next...)
+		cur = next
+	}
+	return all
 }
